@@ -3,6 +3,7 @@ package main
 // Calls: builtins, contracts (modular), inlining, havoc; function exit checks.
 
 import (
+	"os"
 	"fmt"
 	"go/token"
 	"go/types"
@@ -209,6 +210,7 @@ func isPureExternal(key string) bool {
 // havocCall: unknown callee. Result is arbitrary; memory reachable from the
 // arguments (one level) is havocked; if deep is true every heap is havocked.
 func (r *Runner) havocCall(st *State, f *Frame, sig *types.Signature, args []Val, res ssa.Value, what string, deep bool) {
+	r.noteLeaks(st, args)
 	if deep {
 		r.havocAllHeaps(st)
 	} else {
@@ -225,7 +227,105 @@ func (r *Runner) havocCall(st *State, f *Frame, sig *types.Signature, args []Val
 	}
 }
 
+// privateCells: heap-allocated locals of the active frames that only this function and its (so far unleaked)
+// function literals can reach: variables captured by a closure. Unknown code cannot name them unless a closure
+// that binds them was handed out (argument of a non-inlined call, stored to memory): see noteLeaks.
+func (r *Runner) privateCells(st *State) []*Place {
+	var out []*Place
+	if st.leakAll {
+		return nil
+	}
+	for _, f := range st.frames {
+		for _, a := range heapAllocsOf(f.fn) {
+			if os.Getenv("GOVC_DEBUG_PRIV") != "" && a.Heap {
+				_, has := f.regs[a]
+				fmt.Fprintf(os.Stderr, "priv? %s heap=%v leaked=%v closureOnly=%v hasreg=%v\n", a.Comment, a.Heap, st.leaked[a], closureOnly(a), has)
+			}
+			if !a.Heap || st.leaked[a] || !closureOnly(a) {
+				continue
+			}
+			pv, ok := f.regs[a]
+			if !ok {
+				continue
+			}
+			if p := r.placeOf(pv); p != nil && p.Kind == PObj {
+				out = append(out, p)
+			}
+		}
+	}
+	return out
+}
+
+var closureOnlyCache = map[*ssa.Alloc]bool{}
+
+// closureOnly: every use of the variable's address is a load, a store INTO it, or a capture by a function literal.
+func closureOnly(a *ssa.Alloc) bool {
+	symMu.Lock()
+	if v, ok := closureOnlyCache[a]; ok {
+		symMu.Unlock()
+		return v
+	}
+	symMu.Unlock()
+	ok := true
+	if a.Referrers() != nil {
+		for _, u := range *a.Referrers() {
+			switch x := u.(type) {
+			case *ssa.Store:
+				if x.Addr != ssa.Value(a) {
+					ok = false // the address itself is stored somewhere
+				}
+			case *ssa.UnOp, *ssa.DebugRef, *ssa.MakeClosure:
+			default:
+				ok = false
+			}
+		}
+	}
+	symMu.Lock()
+	closureOnlyCache[a] = ok
+	symMu.Unlock()
+	return ok
+}
+
+// noteLeaks: a function literal handed to code that is not executed symbolically here may be kept and called
+// later; from now on the variables it captures are shared.
+func (r *Runner) noteLeaks(st *State, vals []Val) {
+	for _, v := range vals {
+		if v.Clo == nil || v.Clo.Fn == nil {
+			continue
+		}
+		for i, fv := range v.Clo.Fn.FreeVars {
+			_ = fv
+			if i >= len(v.Clo.Bindings) {
+				break
+			}
+			for _, f := range st.frames {
+				for _, a := range heapAllocsOf(f.fn) {
+					if pv, ok := f.regs[a]; ok && a.Heap && len(pv.C) == 1 && len(v.Clo.Bindings[i].C) == 1 && pv.C[0].S == v.Clo.Bindings[i].C[0].S {
+						if st.leaked == nil {
+							st.leaked = map[*ssa.Alloc]bool{}
+						}
+						st.leaked[a] = true
+					}
+				}
+			}
+		}
+	}
+}
+
 func (r *Runner) havocAllHeaps(st *State) {
+	type keep struct {
+		p *Place
+		v Val
+	}
+	var kept []keep
+	for _, p := range r.privateCells(st) {
+		kept = append(kept, keep{p, st.load(p)})
+	}
+	defer func() {
+		for _, k := range kept {
+			st.store(k.p, k.v)
+		}
+	}()
 	keys := make([]string, 0, len(st.heap))
 	for k := range st.heap {
 		keys = append(keys, k)
@@ -346,6 +446,9 @@ func (r *Runner) contractCall(st *State, f *Frame, sp *FuncSpec, callee *ssa.Fun
 		g := env.EvalBool(c.E, st)
 		r.oblige(st, "pre", short+"."+c.Label, g, pos)
 	}
+	// (a callee's contract can only speak of a closure it was given through its own clauses; handing one over
+	// means its captured variables may change whenever the callee's frame says `modifies *`)
+	r.noteLeaks(st, args)
 	for _, h := range sp.Holds {
 		p := env.lockPlace(h)
 		if _, ok := st.held[lockKey(p)]; !ok {
@@ -610,7 +713,7 @@ func (r *Runner) finish(st *State, f *Frame, rv []Val, pos token.Pos) {
 		g := env.EvalBool(c.E, st)
 		if r.quiet == 0 {
 			o := &Oblig{Name: r.curName + "#cover[" + c.Label + "]", Kind: "cover", Fn: r.curName, Goal: Not(g),
-				PC: append([]Term{}, st.pc...), Expect: "sat", Trail: strings.Join(st.trail, ","), Pos: posOf(f.fn, pos), FnObj: r.curFn, Spec: r.curSpec}
+				PC: st.fullPC(), Expect: "sat", Trail: strings.Join(st.trail, ","), Pos: posOf(f.fn, pos), FnObj: r.curFn, Spec: r.curSpec}
 			o.Props = clauseProps(c.Label, sp.Props)
 			r.obligs = append(r.obligs, o)
 		}
